@@ -69,9 +69,10 @@ def run_unit(eng, qualname, timeout_ms=10000, instance=None, discharge=True, cro
         res.error = '%s: %s\n%s' % (type(e).__name__, e, traceback.format_exc())
     res.paths = npaths
     if discharge and res.error is None:
+        inc = solve.Incremental(eng, timeout_ms) if not cross_check else None
         for o in obls:
             try:
-                r = solve.discharge(eng, o, timeout_ms=timeout_ms, cross_check=cross_check)
+                r = inc.discharge(o) if inc is not None else solve.discharge(eng, o, timeout_ms=timeout_ms, cross_check=cross_check)
                 if o.parts:
                     # batched clauses: one query when the batch is discharged, else each clause on its own
                     subs = []
@@ -83,7 +84,7 @@ def run_unit(eng, qualname, timeout_ms=10000, instance=None, discharge=True, cro
                             sr['time_s'] = r['time_s'] / len(o.parts)
                             sr['batched'] = len(o.parts)
                         else:
-                            sr = solve.discharge(eng, so, timeout_ms=timeout_ms, cross_check=cross_check)
+                            sr = inc.discharge(so) if inc is not None else solve.discharge(eng, so, timeout_ms=timeout_ms, cross_check=cross_check)
                         subs.append((so, sr))
                     res.obls.extend(subs)
                     continue
